@@ -28,6 +28,7 @@ type knobs struct {
 	bigFile      bool
 	extBack      bool // links inside ext dirs pointing back into the tree
 	concShared   bool // several callers share one Packer and pack at the same time (needs files big enough to yield inside)
+	failedEarlier bool // an earlier Pack on the same Packer fails half-way inside a dereferenced directory
 }
 
 // Gen builds the scenario for (seed, profile). Pure.
@@ -53,6 +54,7 @@ func Gen(seed uint64, profile string) *Scenario {
 		k.inLinks, k.absInLinks, k.outLinks, k.extBack = true, r.Chance(1, 2), r.Chance(3, 4), r.Chance(1, 3)
 		k.rules, k.specials = r.Chance(1, 4), r.Chance(1, 4)
 	case "spell":
+		k.failedEarlier = r.Chance(1, 6)
 		k.inLinks, k.rules, k.specials, k.oddModes = r.Chance(1, 2), r.Chance(1, 2), r.Chance(1, 3), r.Chance(1, 3)
 		k.outLinks = r.Chance(1, 5)
 		k.bigFile = r.Chance(1, 3)
@@ -69,7 +71,15 @@ func Gen(seed uint64, profile string) *Scenario {
 	if sc.UID != 0 {
 		k.oddModes = false
 	}
+	if k.failedEarlier {
+		k.outLinks = true
+	}
 	genTree(simkit.NewRNG(seed, "pw/tree"), sc, &k)
+	if k.failedEarlier {
+		// a dereferenced directory that is walked first and takes a while to write
+		sc.Tree = append(sc.Tree, TNode{Root: "src", Path: "aa-mods", Kind: "link", Mode: 0o777, Target: "../ext/dir", Sec: 1300000005})
+		sc.Tree = append(sc.Tree, TNode{Root: "ext", Path: "dir/blob.bin", Kind: "file", Mode: 0o644, Tok: "OUT-8;", Size: 12000, Sec: 1300000006})
+	}
 	if k.concShared {
 		for i, n := range []string{"big-1.bin", "big-2.bin"} {
 			sc.Tree = append(sc.Tree, TNode{Root: "src", Path: n, Kind: "file", Mode: 0o644, Tok: "IN-big" + strconv.Itoa(i) + ";", Size: 70000 + 20000*i, Sec: 1300000000 + int64(i)})
@@ -485,7 +495,11 @@ func genRuns(r *simkit.RNG, sc *Scenario, k *knobs, profile string) {
 		for i := r.Intn(3); i > 0; i-- {
 			sc.History = append(sc.History, simkit.Pick(r, []string{"neg-first", "other-opts", "empty-rules", "chdir:/tmp", "same", "dot-other-tree"}))
 		}
-		if r.Chance(1, 4) {
+		if k.failedEarlier {
+			sc.SharedPacker = true
+			sc.Opts.Deref, sc.Opts.Legacy, sc.Opts.Allow = true, false, nil
+			sc.History = append(sc.History, "shared:fail@"+strconv.Itoa(simkit.Pick(r, []int{300, 1000, 2000, 4000, 8000, 11000})))
+		} else if r.Chance(1, 6) {
 			sc.SharedPacker = true
 			sc.History = append(sc.History, "shared:fail@"+strconv.Itoa(simkit.Pick(r, []int{5, 300, 2000, 20000, 70000, 100000})))
 		}
